@@ -46,7 +46,7 @@ MANIFEST = {
             "intact, is argued by reading actor_context.go, not proved. The VALUE of the back-off delay (exponential growth, jitter band) is "
             "C18's business: here it is an oracle input constrained by the contract of StandardExponentialBackoff, and run against the real "
             "function on every case. Deciders that depend on more than (victim, count), e.g. on wall time or on other victims, are outside the "
-            "independence theorem. Open finding shared with C05: a panic in a lifecycle handler of a non-alive actor blocks shutdown.",
+            "independence theorem.",
     "technique": "Coq proof on a message-step kernel model + lockstep differential replay of the real actor system inside Coq; "
                  "Coq proofs (simulation for independence, multiset ledger for timers) on a timer-level strategy model + differential "
                  "runs of the real strategy objects on synctest virtual time with the back-off as an injected oracle",
